@@ -181,6 +181,22 @@ pub fn run_case(ctx: &Ctx, case: &Case) -> Outcome {
         // record of this session will carry cannot be known, so the line names every $conflicts_ key there is
         let conflict_key = node.dump_db("probe").and_then(|m| m.keys().find(|k| k.starts_with("$conflicts_k_x")).cloned()).unwrap_or_else(|| "$conflicts_k_x_1".to_string());
         let conn_conflict = node.dump_db("probe").and_then(|m| m.keys().find(|k| k.starts_with("$conflicts_$connections")).cloned()).unwrap_or_else(|| "$conflicts_$connections_1".to_string());
+        if line == "{TICK}" {
+            // the snapshot thread's next run (a service thread: a panic there ends every later snapshot of the node)
+            crate::node::use_dir(&node.dir);
+            let r = std::panic::catch_unwind(std::panic::AssertUnwindSafe(|| node.snapshot_tick()));
+            if let Err(e) = r {
+                let msg = crate::node::panic_text(e);
+                let prev = case.lines.iter().take(i).rev().find(|l| l.as_str() != "{TICK}").cloned().unwrap_or_default();
+                fail = Some((panic_sig("snapshot-thread-panic", &prev, &msg), format!("the snapshot run after {:?} panicked at {}: {}", case.lines.iter().take(i).map(|l| short(l)).collect::<Vec<_>>(), last_panic_loc(), msg)));
+                break 'lines;
+            }
+            if let Some(l) = node.poisoned() {
+                fail = Some((format!("C10|poisoned|snapshot-run|{}", l), format!("after the snapshot run: lock {} is poisoned", l)));
+                break;
+            }
+            continue;
+        }
         let line = &line.replace("{PENDING_CONFLICT}", &conflict_key).replace("$conflicts_$connections_{LAST_OP}", &conn_conflict).replace("{PENDING}", &pending_id);
         for _ in 0..reps {
             use std::panic::{catch_unwind, AssertUnwindSafe};
@@ -399,12 +415,29 @@ fn conflict_family() -> Vec<Case> {
     out
 }
 
+
+/// database names an administrator may pick: created, selected, written, snapshotted (and the snapshot executed)
+fn db_name_family() -> Vec<Case> {
+    let long = "n".repeat(300);
+    let names: Vec<&str> = vec!["plain", "app.keys", "x-nun.data", "my.db", "a/b", "no-such-dir/x", "../escaped", "a|b", "a b", "é✓", "$x", "-", ".", "..", &long, "keys-nun", "oplog-nun.op"];
+    let mut out = vec![];
+    for n in names {
+        for reclaim in ["false", "true"] {
+            out.push(Case { auth: Auth::Admin, lines: vec![format!("create-db {} ntok", n), format!("use-db {} ntok", n), "set k v".to_string(), format!("snapshot {}", reclaim), "{TICK}".to_string(), "set k w".to_string(), format!("snapshot {} {}", reclaim, n), "{TICK}".to_string(), "use-db other-db otok".to_string(), "snapshot false".to_string(), "{TICK}".to_string()], repeat: 1, world: 0 });
+        }
+    }
+    out
+}
+
 pub fn run(ctx: &Ctx, rep: &mut Report) {
     setup_process();
     let n = ctx.amount(30_000, 1_000_000);
     explore(ctx, rep, "lines", n, case_strategy(), |c| run_case(ctx, c));
     if rep.failures.is_empty() {
         enumerate(ctx, rep, "word-x-token-x-position", systematic().into_iter(), |c| run_case(ctx, c));
+    }
+    if rep.failures.is_empty() {
+        enumerate(ctx, rep, "database-names", db_name_family().into_iter(), |c| run_case(ctx, c));
     }
     if rep.failures.is_empty() {
         enumerate(ctx, rep, "conflict-world-triples", conflict_family().into_iter(), |c| run_case(ctx, c));
